@@ -25,10 +25,11 @@ def add_assets(prog, rng, name_pools=NAME_POOLS):
     names = list(prog["classes"])
     for i, cname in enumerate(names):
         spec = prog["classes"][cname]
+        # the text must arrive verbatim: backslash sequences (regex-replacement look-alikes), non-ASCII, quotes, & and <
         if rng.random() < 0.6:
-            spec["js"] = f"/*js:{cname}*/console.log('{cname}');"
+            spec["js"] = f"/*js:{cname}*/console.log('{cname}');" + rng.choice(["", "", ' var s = "a\\nb \\d \\1 \\g<0> \\\\";', " // \u2192 \u00e9 & < >", " if (1 < 2 && 3 > 2) {}"])
         if rng.random() < 0.5:
-            spec["css"] = f"/*css:{cname}*/.{cname} {{ color: red; }}"
+            spec["css"] = f"/*css:{cname}*/.{cname} {{ color: red; }}" + rng.choice(["", "", ' .i::before { content: "\\f101 \\201C \\\\"; }', " /* \u65e5\u672c & > */", " a > b { }"])
         if rng.random() < 0.1:
             spec["js"] = "   \n "  # blank: must not be emitted
         if rng.random() < 0.45:
